@@ -28,6 +28,9 @@
 #include <forward_list>
 #include <algorithm>
 #include <chrono>
+#ifdef BLOC_VERIF
+#include <atomic>
+#endif
 
 namespace bloc
 {
@@ -332,6 +335,16 @@ public:
   void trusted(bool b);
 
   bool trusted() { return (_flags & FLAG_TRUSTED) != 0; }
+
+#ifdef BLOC_VERIF
+  /* read-only accessors for verification monitors */
+  size_t verifSymbolCount() const { return _storage_pool.size(); }
+  size_t verifControlDepth() const { return _controlstack.size(); }
+  size_t verifBackedSymbols() const { return _backed_symbols.size(); }
+  size_t verifPoolReserved() const { return _temporary_storage.reserved(); }
+  const Context * verifRoot() const { return _root; }
+  LIBBLOC_API static std::atomic<long> verif_live;
+#endif
 
 private:
   Context * _root;
